@@ -192,6 +192,54 @@ def project_resize(raw):
     out.append('.')
     return out
 
+
+def vflags(v):
+    m = re.search(r'(\d+)$', v)
+    return int(m.group(1)) % 8 if m else 0
+def project_flags(raw):
+    """per data node: the accesses to its next word, for ocaml/flagproto_driver.ml -> (blocks, node ids)"""
+    acc = {}
+    for p in events(raw):
+        if len(p) < 3 or not p[2].startswith('E+'): continue
+        off = int(p[2][2:])
+        if off % 24: continue
+        n = 'e%d' % (off // 24); k = p[1]; b = acc.setdefault(n, [])
+        if k == 'or': b.append('O')
+        elif k == 'xchg': b.append('X %d' % (1 if vflags(p[-1]) & 4 else 0))
+        elif k == 'cas':
+            ok = 1 if p[-1] == p[3][4:] else 0; f = vflags(p[4][4:])
+            if f & 1: b.append('R %d' % ok if f == 5 else 'BAD cmpxchg on %s sets flags %d (REMOVED without REMOVAL_OWNER)' % (p[2], f))
+            else: b.append('K %d' % ok)
+    nodes = sorted(acc)
+    return [acc[n] + ['.'] for n in nodes], nodes
+
+def check_flags(ctx, what, cases, raws, driver):
+    """refinement check of the ownership protocol: every node's word accesses must be accepted by FlagProto, and the API-level successes must be the protocol's"""
+    blocks = []; meta = []
+    for (p, s, cf), raw in zip(cases, raws):
+        bl, nodes = project_flags(raw)
+        hist, _, _ = history(events(raw))
+        api = {}
+        for x in hist:
+            if x[1] == 'del' and x[3] == '0': api[x[2]] = api.get(x[2], 0) + 1
+            if x[1] == 'replace' and x[3] == '0': api[x[2][0]] = api.get(x[2][0], 0) + 1
+            if x[1] == 'addr' and x[3] not in (None, '0'): api[x[3]] = api.get(x[3], 0) + 1
+        complete = all(x[5] is not None for x in hist)
+        for b, n in zip(bl, nodes): blocks.append(b); meta.append((p, s, cf, n, api.get(n, 0), complete))
+    if not blocks: return
+    rc, out, err = sh([driver], inp='\n'.join('\n'.join(b) for b in blocks) + '\n', timeout=600); res = out.splitlines()
+    if len(res) != len(blocks): ctx.fail('harness', 'flag protocol driver output', 'expected %d verdicts, got %d' % (len(blocks), len(res))); return
+    nrej = 0; bad_cases = set()
+    for (p, s, cf, n, napi, complete), r in zip(meta, res):
+        v = None
+        if not r.startswith('ok'): v = 'node %s: %s' % (n, r)
+        elif complete and int(r.split()[1]) != napi: v = 'node %s: the protocol counts %s ownership success(es), the API reported %d (del / replace returning 0, add_replace returning the node)' % (n, r.split()[1], napi)
+        if v and (p, s) not in bad_cases:
+            bad_cases.add((p, s)); nrej += 1
+            if nrej <= 2: ctx.fail('correspondence', what, 'prog %s schedule %s...: %s' % (p, s[:60], v), concrete={'scenario': 'scen_lfhtx', 'prog': p, 'schedule': s + '012345' * 300, 'config': list(cf), 'verdict': v})
+    ctx.cov['model_actions_checked'] = ctx.cov.get('model_actions_checked', 0) + sum(len(b) for b in blocks)
+    ctx.cov['disagreements'] = ctx.cov.get('disagreements', 0) + nrej
+
 SRCS = [REPO + s for s in L0.LFHT_SRCS]
 def build(ctx):
     return build_scenario(ctx, 'scen_lfhtx', 'scen_lfhtx.c', extra_src=SRCS)
@@ -212,10 +260,11 @@ def gen(ctx, progs, n, pid, confs=(('2', '8', 'o'),)):
         out.append((prog, bursty(ctx.rng, th, lo=60, hi=400, means=(1, 2, 5, 15, 40)), ctx.rng.choice(confs)))
     return out
 
-def run_cases(ctx, what, impl, cases, proto_driver=None, nontrivial=None, extra_oracle=None):
+def run_cases(ctx, what, impl, cases, proto_driver=None, nontrivial=None, extra_oracle=None, flag_driver=None):
     tail = '012345' * 300
     rs = run_many([[impl, p, s + tail] + list(cf) for p, s, cf in cases], timeout=30)
     nor = 0; blocks = []; distinct = set()
+    if flag_driver: check_flags(ctx, 'FlagProto accepts the accesses to every node\'s next word (' + what + ')', cases, [r[1] for r in rs], flag_driver)
     for (p, s, cf), (rc, raw) in zip(cases, rs):
         o = ('abnormal run: ' + raw[-300:]) if ('TIMEOUT' in raw or rc not in (0,)) else oracle(p, s, None, raw)
         if not o and extra_oracle: o = extra_oracle(p, raw)
